@@ -144,6 +144,22 @@ func (in *Instance) oClausesP(key string, gen *contract.Func, params, results []
 	} else {
 		c.Assigned = true
 	}
+	if pre == "o-" {
+		// heap locations the emitted function may write ("*dst", "dst.f") and
+		// slice/map parameters it fills in place (final(p) in the clauses)
+		for _, a := range in.pickGuarded(gen.Attrs["o-assigns"], args, decisions) {
+			for _, w := range strings.Split(a, ",") {
+				if w = strings.TrimSpace(w); w != "" {
+					c.Assigns = append(c.Assigns, w)
+				}
+			}
+		}
+		for _, a := range in.pickGuarded(gen.Attrs["o-final"], args, decisions) {
+			for _, w := range strings.Fields(a) {
+				c.Attrs["mutates-arg"] = append(c.Attrs["mutates-arg"], w)
+			}
+		}
+	}
 	return c, nil
 }
 
@@ -391,6 +407,26 @@ func (in *Instance) Verify() (*vc.Engine, error) {
 				c.Requires = append(c.Requires, contract.Clause{Text: op.GoName + " != nil", Expr: x, File: in.Con.File, Line: in.Con.Line, Name: "safe-" + op.Name})
 			}
 			cs.Ghost[pkgName+"."+op.Name] = spec.MustParse(op.Spec)
+			// an lvalue operand written through a pointer: the wrapper may write that cell
+			if op.Name == strings.TrimSpace(in.Con.Attr("o-assigns-operand")) && op.Class == "Star" {
+				c.Assigns = append(c.Assigns, op.Spec)
+			}
+		}
+		// o-operands-separate: operands passed by address are different cells (the
+		// property's hypothesis that destination and source share no memory)
+		if len(in.Con.Attrs["o-operands-separate"]) > 0 {
+			var stars []Operand
+			for _, op := range in.Operands {
+				if op.Class == "Star" {
+					stars = append(stars, op)
+				}
+			}
+			for i := 0; i < len(stars); i++ {
+				for j := i + 1; j < len(stars); j++ {
+					t := stars[i].GoName + " != " + stars[j].GoName
+					c.Requires = append(c.Requires, contract.Clause{Text: t, Expr: spec.MustParse(t), File: in.Con.File, Line: in.Con.Line, Name: "separate-operands"})
+				}
+			}
 		}
 		cs.Funcs[key] = c
 		e.ExtraBound[key] = map[string]vc.Val{}
